@@ -330,10 +330,23 @@ func (ru *run) planReports(parent *chainBlock, plan *blockPlan) {
 		if used[r.PackageSpec.Hash] {
 			continue
 		}
+		// counts and sizes of a report are mostly small; one report in five carries the large legal values (thousands of
+		// exported / imported segments, megabytes of bundle and extrinsic data, refinement gas beyond 2^32): the
+		// statistics derived from them must not depend on intermediate results fitting a narrow type
+		largeCounts := t.Prob(1, 5, "report_with_large_counts")
+		big16 := func(small int, label string) types.U16 {
+			if largeCounts && t.Bool(label+"_large") {
+				return []types.U16{255, 256, 1007, 1008, 1009, 2048, 3071, 3072}[t.Choose(8, label+"_large_value")]
+			}
+			return types.U16(t.Choose(small, label))
+		}
 		r.PackageSpec.Length = types.U32(100 + t.Choose(5000, "pkg_len"))
+		if largeCounts && t.Bool("pkg_len_large") {
+			r.PackageSpec.Length = []types.U32{65535, 65536, 1 << 20, 13794305 - 1}[t.Choose(4, "pkg_len_large_value")]
+		}
 		r.PackageSpec.ErasureRoot = types.ErasureRoot(h256(r.PackageSpec.Hash[:], []byte("erasure")))
 		r.PackageSpec.ExportsRoot = types.ExportsRoot(h256(r.PackageSpec.Hash[:], []byte("exports")))
-		r.PackageSpec.ExportsCount = types.U16(t.Choose(4, "exports"))
+		r.PackageSpec.ExportsCount = big16(4, "exports")
 		// anchor: an entry of β†
 		hist := st.Beta.History
 		ai := len(hist) - 1
@@ -399,8 +412,16 @@ func (ru *run) planReports(parent *chainBlock, plan *blockPlan) {
 			}
 			res := types.WorkResult{ServiceID: sid, CodeHash: ac.ServiceInfo.CodeHash, PayloadHash: h256([]byte{byte(ru.reportSeq), byte(k)}),
 				AccumulateGas: types.Gas(40000 + 1000*t.Choose(30, "acc_gas")),
-				RefineLoad: types.RefineLoad{GasUsed: types.Gas(t.Choose(5000, "rl_gas")), Imports: types.U16(t.Choose(5, "rl_imports")), ExtrinsicCount: types.U16(t.Choose(4, "rl_xc")),
-					ExtrinsicSize: types.U32(t.Choose(3000, "rl_xs")), Exports: types.U16(t.Choose(4, "rl_exports"))}}
+				RefineLoad: types.RefineLoad{GasUsed: types.Gas(t.Choose(5000, "rl_gas")), Imports: big16(5, "rl_imports"), ExtrinsicCount: types.U16(t.Choose(4, "rl_xc")),
+					ExtrinsicSize: types.U32(t.Choose(3000, "rl_xs")), Exports: big16(4, "rl_exports")}}
+			if largeCounts && t.Bool("rl_large") {
+				res.RefineLoad.GasUsed = []types.Gas{1<<32 - 1, 1 << 32, 4_999_999_999}[t.Choose(3, "rl_gas_large")]
+				res.RefineLoad.ExtrinsicSize = []types.U32{65536, 1 << 20, 12 << 20}[t.Choose(3, "rl_xs_large")]
+				res.RefineLoad.ExtrinsicCount = []types.U16{127, 128}[t.Choose(2, "rl_xc_large")]
+			}
+			if largeCounts {
+				ru.r.Count("probe:report_with_large_counts", 1)
+			}
 			if t.Prob(1, 6, "refine_failed") {
 				res.Result = types.WorkExecResult{Type: types.WorkExecResultPanic}
 			} else {
